@@ -180,9 +180,9 @@ def g_tensor(rng, shape, kinds=None, special=None):
 
 class Prop:
     ID = "C03"
-    LEVEL = "exploration"
-    COQ_HEADER = ""
-    CHECK_FN = ""
+    LEVEL = "proof"
+    COQ_HEADER = "From TN Require Import Harness.H_C03.\nOpen Scope Z_scope.\n"
+    CHECK_FN = "check"
     RULE = ("(a) enumerated lattice: for N=1,2 every format assignment ({TT,CP}x{U,none} per mode) x every per-mode entry "
             "kind (int / slice / index array) x every subset of None insertion positions (N=3: the same product, sampled in "
             "quick, exhaustive in thorough); two separated array runs arising in the product are kept as must-raise cases; "
@@ -203,7 +203,7 @@ class Prop:
                    "a run of index arrays is contiguous when the arrays are adjacent entries of the key (an int, slice or "
                    "None between two arrays makes two runs, which must raise)",
                    "non-batch tensors only"]
-    THEOREMS = []
+    THEOREMS = ["C03_getitem", "C03_scalar", "C03_none", "C03_run"]
 
     # ------------------------------------------------------------------ generation
     def generate(self, rng, tier):
@@ -567,7 +567,54 @@ class Prop:
                                    json.dumps(case.get("key", case.get("arg"))), case.get("default_dtype"))
 
     def coq_term(self, case, res):
-        return None
+        """valid getitem keys under default float64: the key is normalised the way _process_key does (Ellipsis expanded,
+        trailing modes filled, negative integers wrapped, slices as start/step/count, index arrays grouped into their run);
+        None entries only insert singleton dimensions and are dropped (values in row-major order are unchanged)."""
+        if case["op"] != "getitem" or not res.get("ok") or case.get("default_dtype") == "float32":
+            return None
+        tj = self._tensor(case); shape = tshape(tj); N = len(shape)
+        ents = case["key"]["entries"]
+        if any(e["k"] in ("float",) for e in ents) or sum(1 for e in ents if e["k"] == "ell") > 1:
+            return None
+        real = [e for e in ents if e["k"] in ("int", "slice", "idx")]
+        if len(real) > N:
+            return None
+        exp = []
+        for e in ents:
+            if e["k"] == "ell":
+                exp += [{"k": "slice", "a": None, "b": None, "s": None}] * (N - len(real))
+            elif e["k"] != "none":
+                exp.append(e)
+        exp += [{"k": "slice", "a": None, "b": None, "s": None}] * (N - len(exp))
+        if len(exp) != N:
+            return None
+        out = []; rshape = []; n = 0
+        while n < N:
+            e = exp[n]; I = shape[n]
+            if e["k"] == "int":
+                v = int(e["v"])
+                if not -I <= v < I:
+                    return None
+                out.append("ZInt %d" % (v % I)); n += 1
+            elif e["k"] == "slice":
+                st, sp, step = slice(e["a"], e["b"], e["s"]).indices(I)
+                cnt = len(range(st, sp, step))
+                out.append("ZSlice %d %d %d" % (st if cnt else 0, step, cnt)); rshape.append(cnt); n += 1
+            else:
+                ls = []
+                while n < N and exp[n]["k"] == "idx":
+                    vs = [int(x) for x in exp[n]["v"]]
+                    if any(not -shape[n] <= x < shape[n] for x in vs):
+                        return None
+                    ls.append([x % shape[n] for x in vs]); n += 1
+                P = len(ls[0])
+                if any(len(l) != P for l in ls):
+                    return None
+                out.append("ZRun %d [%s]" % (P, "; ".join(coq_natlist(l) for l in ls))); rshape.append(P)
+        dense = canon_dense(res["dense"])
+        if dense is None:
+            dense = [10 ** 9]
+        return "mkCase %s [%s] %s %s" % (coq_tensor(tj), "; ".join(out), coq_natlist(rshape), coq_list(dense))
 
     # ------------------------------------------------------------------ oracle self-check
     def extra(self, tier, rng):
